@@ -79,6 +79,9 @@ where
                 );
                 if self.repeat.again() {
                     self.f.seek(std::io::SeekFrom::Start(0))?;
+                    // A partial sample at the end of the file is not the
+                    // beginning of the first sample of the next repetition.
+                    self.buf.clear();
                     // This is not quite the definition of "pending", but I
                     // wanted to get rid of Noop, and it'll do for now.
                     // TODO: loop instead.
